@@ -46,6 +46,11 @@ def storage_oracle(ctx, sp, o, mode, mp, x, out, dt):
         bad = {}
         steps = np.where(act)[0]
         last = steps[-1]
+        if not a.get('freq'):
+            from props.C08 import asset_steps
+            own = asset_steps(sp['grid'], a)
+            if sorted(int(t) for t in steps) != own:
+                bad['storage has variables at other steps than those of its own window'] = [[int(t) for t in steps], own]
         if (lvl[steps] < -tol).any() or (lvl[steps] > a['size'] + tol).any():
             bad['level outside [0,size]'] = [float(v) for v in lvl]
         if abs(lvl[last] - a.get('end_level', 0.0)) > tol:
@@ -101,6 +106,14 @@ def run(ctx):
     wk = [{'start': s0, 'end': e0, 'freq': 'd', 'unit': u, 'tz': 'CET'} for s0, e0 in (('2021-03-22 00:00', '2021-04-05 00:00'), ('2021-10-25 00:00', '2021-11-08 00:00')) for u in ('h', 'd')]
     specs += gen.gen_many(ctx.seed, 4 if ctx.tier == 'quick' else 24, dict(CFG, grids=wk, p_coarse=1.0, coarse_freqs=['7d'], p_window=0.0, p_max_store=0.0, p_no_simult=0.0, p_blocks=0.0,
                                                                            kinds={'Storage': 1}, n_assets=(1, 2)), 'c05wk_')
+    # the portfolio was set up (and solved) before with the same grid object: storages with windows next to assets with other windows
+    warm = gen.gen_many(ctx.seed, n // 3, dict(CFG, p_window=0.9, n_assets=(2, 4), p_coarse=0.3, p_blocks=0.0, kinds={'Storage': 3, 'Transport': 1, 'SimpleContract': 2}), 'c05warm_')
+    for k_, sp in enumerate(warm):
+        sp['opts']['warmup'] = 'solve' if k_ % 2 else 'setup'
+    specs += warm
+    # storages on a coarser frequency with their own window: first coarse step only partly inside the horizon, or running since before it
+    specs += gen.gen_many(ctx.seed, n // 3, dict(CFG, p_coarse=1.0, coarse_windows=True, coarse_any=False, p_coarse_early=0.3, freqs=['h', '30min'], T=(4, 9), p_blocks=0.0, p_max_store=0.0,
+                                                 kinds={'Storage': 1}, n_assets=(1, 2)), 'c05cw_')
     specs = ctx.specs(specs)
     res = C.run_impl('portfolio', specs)
     parts = C.run_impl('assets', specs)
